@@ -665,3 +665,36 @@ fn c14_pdelay_resp_follow_up() {
     kani::cover!(meas.is_some());
 }
 
+
+
+// ============================================================================================ C03 finding
+/// FINDING harness (expected to fail while F-C03-wire-time-underflow is open): over C03's full domain (host
+/// timestamps in [0, 2^64 ns), every 64-bit correction field) `handle_sync` must return normally; it does not:
+/// `recv_time - correction` underflows the unsigned Time when the correction exceeds the receive timestamp.
+#[kani::proof]
+#[kani::unwind(9)]
+#[kani::stub(PortActionIterator::from, PortActionIterator::verif_recording_from)]
+#[kani::stub(<Duration as core::ops::Div<i32>>::div, stub_div_by_two)]
+#[kani::stub(<Duration as core::ops::Div<f64>>::div, stub_div_by_two)]
+fn c03_finding_sync_correction_exceeds_receive_time() {
+    slave_setup!(lock, port);
+    let mut header = any_header();
+    header.two_step_flag = true;
+    let msg = SyncMessage { origin_timestamp: any_wire_timestamp() };
+    let recv_time = any_time();
+    let _ = run_actions!(port.handle_sync(header, msg, recv_time));
+}
+
+/// same class, Follow_Up: `Time::from(preciseOriginTimestamp) + correction` with a negative correction larger
+/// than the origin timestamp
+#[kani::proof]
+#[kani::unwind(9)]
+#[kani::stub(PortActionIterator::from, PortActionIterator::verif_recording_from)]
+#[kani::stub(<Duration as core::ops::Div<i32>>::div, stub_div_by_two)]
+#[kani::stub(<Duration as core::ops::Div<f64>>::div, stub_div_by_two)]
+fn c03_finding_follow_up_correction_below_zero() {
+    slave_setup!(lock, port);
+    let header = any_header();
+    let msg = FollowUpMessage { precise_origin_timestamp: any_wire_timestamp() };
+    let _ = run_actions!(port.handle_follow_up(header, msg));
+}
